@@ -271,7 +271,7 @@ func (z *ioDecReader) fillbuf(bufsize uint) (numShift, numRead uint) {
 			z.err = err
 			if err == io.EOF {
 				z.done = true
-			} else if errors.Is(err, os.ErrDeadlineExceeded) {
+			} else if n > 0 && errors.Is(err, os.ErrDeadlineExceeded) {
 				// os read deadline, but some bytes read: return (don't store err)
 				z.err = nil
 			}
